@@ -1307,6 +1307,18 @@ def claim_proof_mutations(proof, root_hex, name):
         m = copy.deepcopy(proof)
         del m['nodes'][-1]
         out.append(("last node removed", m, root_hex, name))
+    # a proof that NAMES an outpoint must bind it to the root: naming another transaction / output while shipping the really
+    # committed value as an opaque valueHash of the last node (with or without the takeover height) proves nothing about that outpoint
+    committed = wire(claim_value_hash(unwire(proof['txhash']), proof['nOut'], proof['last takeover height']))
+    for drop_takeover in (True, False):
+        for field, alt in (('txhash', flip_hex(proof['txhash'], 5)), ('nOut', proof['nOut'] + 1)):
+            m = copy.deepcopy(proof)
+            m[field] = alt
+            if drop_takeover:
+                del m['last takeover height']
+            m['nodes'][-1]['valueHash'] = committed
+            out.append((f"forged {field} with the committed value as opaque valueHash" + (", takeover height omitted" if drop_takeover else ""),
+                        m, root_hex, name))
     return out
 
 
